@@ -4,8 +4,10 @@ import (
 	"context"
 	"encoding/json"
 	"fmt"
+	pb "github.com/wealdtech/eth2-signer-api/pb/v1"
 	"sort"
 	"strings"
+	"time"
 
 	"verif/ev"
 	"verif/model"
@@ -484,7 +486,13 @@ func C07(tier string) int {
 		return run.Finish()
 	}
 	cells += dcells
+	wire, err := c07OverTheWire(run)
+	if err != nil {
+		run.HarnessErr = err
+		return run.Finish()
+	}
 	run.Coverage = map[string]any{
+		"over_the_wire":       wire,
 		"evaluations":         calls + cells,
 		"distinct_nontrivial": len(classes) + len(sclasses),
 		"rule":                "checker grid: every one-entry table over (12 wallet patterns x 9 account patterns (literals, alternation, anchors, escape classes \\D \\W \\S) x ordered operation lists of length <= 2 (3 in thorough) over 9 items) and two-entry tables (first entry x 4 second entries), each asked for 8 wallet names x 6 account names (one containing a slash) x 3 operations x 6 client identities; verdict is one-directional: Check==true implies the reference evaluator (whole-name, case-insensitive, first bearing item) allows; service grid: 8 tables x 3 clients x 4 wallets x 3 accounts x every operation of signer (by name and by key), lister, account manager, wallet manager and generate (single-instance, and two-of-three across three real instances) on the real services: carried out only if the evaluator allows on the resolved name, and a refused request leaves decoded records and lock/account state unchanged; distinct = (dirk verdict, reference verdict) and (operation, allowed, done) classes",
@@ -507,4 +515,65 @@ func C07(tier string) int {
 
 func init() {
 	Registry["C07"] = C07
+}
+
+// c07OverTheWire: "has no authenticated identity" from the certificate on. A real instance with a real API server (own
+// authority, mutual TLS); callers hold certificates of that authority for names without any permission, dressed up with
+// a permitted client's name in every place that is not the authenticated one: as a DNS name, as a further (public)
+// certificate presented behind their own, and as their name in another case. Listing and signing on the permitted
+// client's wallet must yield nothing; the permitted client itself is the control.
+func c07OverTheWire(run *ev.Run) (map[string]any, error) {
+	nc, err := rig.NewNetCluster([]uint64{1})
+	if err != nil {
+		return nil, err
+	}
+	defer nc.Close()
+	node := nc.Nodes[1]
+	a := node.Rig.AddSymAccount("Wallet 1", "", "pass", true)
+	permitted, err := nc.IssueDER(rig.DefaultClient)
+	if err != nil {
+		return nil, err
+	}
+	try := func(cc rig.CallerCert) (listed int, signed bool, err error) {
+		conn, err := nc.DialAs(1, cc)
+		if err != nil {
+			return 0, false, err
+		}
+		defer conn.Close()
+		ctx, cancel := context.WithTimeout(context.Background(), 20*time.Second)
+		defer cancel()
+		if res, lerr := pb.NewListerClient(conn).ListAccounts(ctx, &pb.ListAccountsRequest{Paths: []string{"Wallet 1"}}); lerr == nil {
+			listed = len(res.GetAccounts()) + len(res.GetDistributedAccounts())
+		}
+		dom := make([]byte, 32)
+		dom[0] = 7
+		if res, serr := pb.NewSignerClient(conn).Sign(ctx, &pb.SignRequest{Id: &pb.SignRequest_Account{Account: "Wallet 1/" + a.Name()}, Data: pat(3), Domain: dom}); serr == nil && len(res.GetSignature()) > 0 {
+			signed = true
+		}
+		return listed, signed, nil
+	}
+	if listed, signed, err := try(rig.CallerCert{CommonName: rig.DefaultClient}); err != nil || listed == 0 || !signed {
+		return nil, fmt.Errorf("over the wire: the permitted client itself is not served (listed %d, signed %v, %v)", listed, signed, err)
+	}
+	callers := []struct {
+		name string
+		cert rig.CallerCert
+	}{
+		{"a certificate CN=nobody", rig.CallerCert{CommonName: "nobody"}},
+		{"a certificate CN=nobody with the permitted client's name as DNS name", rig.CallerCert{CommonName: "nobody", DNS: []string{rig.DefaultClient}}},
+		{"a certificate without a common name with the permitted client's name as DNS name", rig.CallerCert{DNS: []string{rig.DefaultClient}}},
+		{"a certificate CN=nobody presented with the permitted client's public certificate behind it", rig.CallerCert{CommonName: "nobody", AppendDER: [][]byte{permitted}}},
+		{"a certificate with the permitted client's name in upper case", rig.CallerCert{CommonName: strings.ToUpper(rig.DefaultClient)}},
+	}
+	for i, c := range callers {
+		listed, signed, err := try(c.cert)
+		if err != nil {
+			return nil, err
+		}
+		if listed > 0 || signed {
+			run.Violate(fmt.Sprintf("wire-served-without-permission:caller=%d", i), fmt.Sprintf("over mutual TLS, a caller holding %s (no permission entry for its authenticated name) was served on the permitted client's wallet: %d accounts listed, signature returned: %v", c.name, listed, signed),
+				map[string]any{"check": "C07", "over_the_wire": true})
+		}
+	}
+	return map[string]any{"callers": len(callers)}, nil
 }
